@@ -1,6 +1,7 @@
 import Req.Client.Compress
 import Req.Client.CompressLegacy
 import Req.Client.CompressToy
+import Req.Client.CompressShape
 import Req.Lemmas.C14Readers
 /-!
 C14 — property theorems, part 1: the decision (who asks for gzip, when a response is decoded,
@@ -645,5 +646,92 @@ example :
     lazyRun Toy.codec false (LazyState.init ⟨[3, 7, 1], .eof⟩) [.read 2, .read 2, .read 2, .read 1, .close, .read 1]
       = [([7, 7], none), ([7], some (.err 1)), ([], some (.err 1)), ([], some (.err 1)), ([], some (.err 3))] := by
   decide
+
+/-! ## Part 3 — the extracted source shape means the model
+
+`Bridge/C14.lean` proves that the shape `tools/gofacts` extracts from transport.go,
+internal/http2/transport.go and internal/http3/http_stream.go equals `shape s` (or
+`Legacy.shape s` while the fixes are not applied). Here: the meaning of those shapes is the
+decision function the theorems above are about. -/
+
+theorem interp_core (sh : SiteShape) (i : RespIn)
+    (h1 : sh = shape .h1 ∨ sh = shape .h2) : interp sh i = some (viewAction (decideCore i)) := by
+  have e1 : strips [Effect.set .body .gzipReader, .delContentEncoding, .delContentLength, .contentLengthMinus1, .uncompressedTrue] = some true := by decide
+  have e1' : strips [Effect.delContentEncoding, .delContentLength, .contentLengthMinus1, .set .body .gzipReader, .uncompressedTrue] = some true := by decide
+  have e2 : strips [Effect.delContentEncoding, .delContentLength, .contentLengthMinus1, .uncompressedTrue, .set .body .reader] = some true := by decide
+  have e3 : strips [] = some false := by decide
+  rcases h1 with rfl | rfl <;>
+  · simp only [interp, shape, decideCore, isGzipFold]
+    simp only [e1, e1', e2, e3, List.foldl, runEffect, runEffects, Bool.true_and]
+    rcases Bool.eq_false_or_eq_true (i.addedGzip && Req.Ascii.equalFold i.ce tokGzip) with hg | hg
+    · simp [hg, viewAction]
+    · rcases Bool.eq_false_or_eq_true i.autoDecompress with ha | ha
+      · cases hs : select i.ce <;> simp [hg, ha, hs, viewAction]
+      · simp [hg, ha, viewAction]
+
+/-- **interp_shape_h1 / h2** — the extracted shape of `readLoop` / `handleResponse` means
+`decideCore` (the branch behind the stacks' HEAD / bodiless early exits). -/
+theorem interp_shape_h1 (i : RespIn) : interp (shape .h1) i = some (viewAction (decideCore i)) :=
+  interp_core _ i (Or.inl rfl)
+
+theorem interp_shape_h2 (i : RespIn) : interp (shape .h2) i = some (viewAction (decideCore i)) :=
+  interp_core _ i (Or.inr rfl)
+
+/-- **interp_shape_h3** — the extracted shape of `ReadResponse` (assignments through
+`s.responseBody`, `res.Body = s.responseBody` at the end) means `decideH3`. -/
+theorem interp_shape_h3 (i : RespIn) : interp (shape .h3) i = some (viewAction (decideH3 i)) := by
+  have e1 : strips [Effect.delContentEncoding, .delContentLength, .contentLengthMinus1, .set .responseBody .gzipReader, .uncompressedTrue] = some true := by decide
+  have e2 : strips [Effect.delContentEncoding, .delContentLength, .contentLengthMinus1, .uncompressedTrue, .set .responseBody .reader] = some true := by decide
+  have e3 : strips [] = some false := by decide
+  simp only [interp, shape, decideH3, isGzipFold]
+  simp only [e1, e2, e3, List.foldl, runEffect, runEffects, Bool.true_and]
+  rcases Bool.eq_false_or_eq_true (i.addedGzip && Req.Ascii.equalFold i.ce tokGzip) with hg | hg
+  · simp [hg, viewAction]
+  · rcases Bool.eq_false_or_eq_true (i.autoDecompress && !i.isHead) with ha | ha
+    · cases hs : select i.ce <;> simp [hg, ha, hs, viewAction]
+    · simp [hg, ha, viewAction]
+
+/-- the pre-fix shapes mean the legacy model (so the counter-examples `legacy_*` are about the
+code that was extracted before the fixes) -/
+theorem interp_legacy_shape_h1_h2 (i : RespIn) :
+    interp (Legacy.shape .h1) i = some (Legacy.viewAction (Legacy.decideCore i)) ∧
+    interp (Legacy.shape .h2) i = some (Legacy.viewAction (Legacy.decideCore i)) := by
+  have e1 : strips [Effect.set .body .gzipReader, .delContentEncoding, .delContentLength, .contentLengthMinus1, .uncompressedTrue] = some true := by decide
+  have e1' : strips [Effect.delContentEncoding, .delContentLength, .contentLengthMinus1, .set .body .gzipReader, .uncompressedTrue] = some true := by decide
+  have e2 : strips [Effect.delContentEncoding, .delContentLength, .contentLengthMinus1, .uncompressedTrue, .set .body .reader] = some true := by decide
+  have e3 : strips [] = some false := by decide
+  constructor <;>
+  · simp only [interp, Legacy.shape, shape, Legacy.decideCore, isGzipFold]
+    simp only [e1, e1', e2, e3, List.foldl, runEffect, runEffects, Bool.true_and]
+    rcases Bool.eq_false_or_eq_true (i.addedGzip && Req.Ascii.equalFold i.ce tokGzip) with hg | hg
+    · simp [hg, Legacy.viewAction]
+    · rcases Bool.eq_false_or_eq_true i.autoDecompress with ha | ha
+      · rcases Bool.eq_false_or_eq_true (i.ce != []) with he | he
+        · cases hs : select i.ce <;> simp [hg, ha, he, hs, Legacy.viewAction]
+        · simp [hg, ha, he, Legacy.viewAction]
+      · simp [hg, ha, Legacy.viewAction]
+
+theorem interp_legacy_shape_h3 (i : RespIn) :
+    interp (Legacy.shape .h3) i = some (Legacy.viewAction (Legacy.decideH3 i)) := by
+  have e1 : strips [Effect.delContentEncoding, .delContentLength, .contentLengthMinus1, .set .responseBody .gzipReader, .uncompressedTrue] = some true := by decide
+  have e2 : strips [Effect.delContentEncoding, .delContentLength, .contentLengthMinus1, .uncompressedTrue, .set .body .reader] = some true := by decide
+  have e3 : strips [Effect.set .responseBody .raw] = some false := by decide
+  simp only [interp, Legacy.shape, Legacy.decideH3]
+  simp only [e1, e2, e3, List.foldl, runEffect, runEffects, Bool.true_and]
+  rcases Bool.eq_false_or_eq_true (i.addedGzip && i.ce == tokGzip) with hg | hg
+  · simp [hg, Legacy.viewAction]
+  · rcases Bool.eq_false_or_eq_true i.autoDecompress with ha | ha
+    · rcases Bool.eq_false_or_eq_true (i.ce != []) with he | he
+      · simp [hg, ha, he, Legacy.viewAction]
+      · simp [hg, ha, he, Legacy.viewAction]
+    · simp [hg, ha, Legacy.viewAction]
+
+/-- the extracted request-side conjunct list means `addGzip` -/
+theorem interpAsk_shape (s : Site) (c : ReqCfg) : interpAsk (shape s).ask c = some (addGzip s c) := by
+  cases s <;> simp [interpAsk, shape, addGzip, addGzipH1, addGzipH2, addGzipH3, ReqCfg.isHead, Bool.and_assoc, bne]
+
+/-- the fixes do not touch the request side -/
+theorem legacy_shape_ask (s : Site) : (Legacy.shape s).ask = (shape s).ask := by
+  cases s <;> rfl
 
 end Req.Props.C14
